@@ -83,15 +83,37 @@ def sync_jobs(tier):
              "_obligation": "O5", "_covers": ["synced"], "unwind": 80} for u in (0, 1)]
 
 
+from props import C09 as _c09
+
+OPN = ["none", "eq", "ne", "gt", "ge", "lt", "le", "in", "nin"]
+DIRN = ["unordered", "asc", "desc"]
+
+
+def request_jobs(tier, prop="C07"):
+    """O6: whole single-collection requests through the query kernel, with and without the index, against direct evaluation"""
+    js = []
+    ops = (0, 1, 3, 6, 7, 8) if tier == "quick" else range(9)
+    for op in ops:
+        for d in (0, 1, 2):
+            if tier == "quick" and d == 2 and op not in (0, 3):
+                continue
+            for idx in (0, 2):
+                js.append({"id": f"O6.request.{OPN[op]}.{DIRN[d]}.idx{idx}", "func": "VerifH_C07_Request", "conf": {"op": op, "dir": d, "idx": idx, "n": 3},
+                           "_obligation": "O6", "_covers": ["ran"], "unwind": 60})
+    return js
+
+
 PROPERTY = {
     "id": "C07",
     "suites": [
+        dict(_c09.PROPERTY["suites"][0], name="request", files=["zz_verif_query.go", "zz_verif_c08q.go"], jobs=request_jobs),
         dict(_c02.SUITE, name="syncindex", jobs=sync_jobs, patches=SYNC_PATCHES,
              files=["zz_verif_env.go", "zz_verif_merge.go", "zz_verif_c07uniq.go", "zz_verif_c07maint.go"]),
         dict(_c02.SUITE, name="uniquewrite", jobs=uniq_jobs, files=["zz_verif_env.go", "zz_verif_merge.go", "zz_verif_c07uniq.go", "zz_verif_c07maint.go"]),{"name": "indexfetcher", "pkg": "internal/db/fetcher", "files": ["zz_verif_c03.go", "zz_verif_c07.go"],
                 "common": ["intrinsics", "kvmodel", "dagenv"], "jobs": jobs, "unwind": 40, "witnesses": {"quick": 6, "thorough": 16},
                 "overrides": {"github.com/sourcenetwork/defradb/client.CborNil": "bytes:f6"}}],
-    "bounds": {"index maintenance (O5)": "2 documents, 1-2 indexed nullable int fields with values null or 0..3, unique or not, directions symbolic, histories of 3-4 (thorough 4-5) Save/Update/Delete calls", "documents": 2, "kinds": "int in [-128,127] (key encoding at full width is C17), float64 (thorough), string <= 2 ASCII bytes, bool (thorough); every value may be null",
+    "bounds": {"request level (O6)": "3 documents with age null or 0..3; one operator (quick: none, _eq, _gt, _le, _in, _nin; thorough: all eight) with symbolic operands; order none / ASC / DESC; with an order: limit and offset 0..2; with and without a secondary index on the field",
+               "index maintenance (O5)": "2 documents, 1-2 indexed nullable int fields with values null or 0..3, unique or not, directions symbolic, histories of 3-4 (thorough 4-5) Save/Update/Delete calls", "documents": 2, "kinds": "int in [-128,127] (key encoding at full width is C17), float64 (thorough), string <= 2 ASCII bytes, bool (thorough); every value may be null",
                "index": "single field or 2-field composite, asc/desc per field symbolic, unique or not", "filter": "one operator per indexed field from _eq,_ne,_gt,_ge,_lt,_le,_in(2),_nin(2); constants symbolic or null"},
     "assumptions": ["index entries have the shape written by collectionBaseIndex.getDocumentsIndexKey / makeUniqueKeyValueRecord (re-stated in the read harness with the real key encoder; for unique indexes the shape is pinned against the real write kernel by O4)",
                     "the store follows the corekv iterator contract (kvmodel)", "a unique index holds no two live documents with the same non-null tuple",
